@@ -142,6 +142,9 @@ def gt_invariants(w):
     if w.run_returned:
         for c in w.accepted:
             answered = c.wbuf.count(b"HTTP/1.1 200 OK")
+            if c.closed and answered < c.total_in and not c.peer_closed:
+                bad.append(("accepted-request-dropped-at-recycle", "accepted connection %s sent %d request(s), got %d answer(s), and was closed by the worker when it "
+                            "recycled although its client was still waiting" % (c.name, c.total_in, answered)))
             if not c.closed and answered < max(1, c.total_in) and c.in_job is None:
                 bad.append(("accepted-connection-dropped-at-recycle", "run() returned (max_requests reached) while accepted connection %s was never served "
                             "(%d request(s) sent on it, %d answered): its client gets an empty reply" % (c.name, c.total_in, answered)))
